@@ -138,7 +138,8 @@ def c12(ctx):
     rows = []
     nsent = 0
     plans = [([ctx.rng.randrange(16)], 0), ([ctx.rng.randrange(16)], 5), (ctx.rng.sample(range(16), 2), 1),
-             (ctx.rng.sample(range(16), 3), 5), (list(range(16)), 5), (list(range(16)), 0)]
+             (ctx.rng.sample(range(16), 3), 5), (list(range(16)), 5), (list(range(16)), 0),
+             ([ctx.rng.randrange(16)], -1)]        # Duration::MAX: nothing is ever overdue, every poll is early
     if not ctx.quick:
         plans = plans * 6
     for i, (chans, to) in enumerate(plans):
@@ -294,8 +295,9 @@ def c17(ctx):
     p14 = edges_cc14(ctx, impls=("raw",))
     ppn = edges_pn(ctx, impls=("raw",))
     pp = edges_poll(ctx, timeouts=(0, 2), impls=("raw",))
-    rows = sweep_reset(ctx, p14, "cc14", 0, 200) + sweep_reset(ctx, ppn, "pn", 0, 200) \
-        + sweep_reset(ctx, pp[0], "poll", 0, ctx.q(150, 1000)) + sweep_reset(ctx, pp[2], "poll", 2, ctx.q(150, 1000))
+    # (the access paths of every node of the lock-step exploration: hidden implementation state included)
+    rows = sweep_reset(ctx, variant_paths(p14), "cc14", 0, 300) + sweep_reset(ctx, variant_paths(ppn), "pn", 0, 300) \
+        + sweep_reset(ctx, variant_paths(pp[0]), "poll", 0, ctx.q(200, 1000)) + sweep_reset(ctx, variant_paths(pp[2]), "poll", 2, ctx.q(200, 1000))
     res, trace = run_script(ctx, rows, "reset-in-every-state")
     rows = []
     for kind, to in (("cc14", 0), ("pn", 0), ("poll", 0), ("poll", 5), ("poll", -1)):
